@@ -34,7 +34,7 @@ LEVEL = "model_checking"
 
 # FALSE while known finding X01:ReadBeyondLen is open; set True together with flipping that entry to "fixed" once
 # findings/X01-readfrom-len.fix.patch is committed to /repo (the specification then models ReadFrom copying into b[:len(b)])
-CLIP_TO_LEN = False
+CLIP_TO_LEN = True
 
 KEYS = ("ReadBeyondLen", "WriteAfterClosePanics", "ReadAfterOwnClose", "CloseLeavesOwnReadBlocked")
 KF_WHAT = {
